@@ -5,5 +5,6 @@ CONSTANTS
   AsCoded = FALSE
   Crashes = FALSE
   Batched = TRUE
+  Recheck = TRUE
 INVARIANT Report
 CHECK_DEADLOCK FALSE
